@@ -138,6 +138,21 @@ pub fn c07(spec: &WorldSpec, ex: &Exec) -> Option<Viol> {
         if got != want {
             return Some(viol(spec, "not-the-list-function", ex.trace.len().saturating_sub(1), format!("upstream sent {:?}, probe has {:?}, expected {:?}", sent, got, want)));
         }
+        // the user closure (map's f, filter's predicate, scan's reducer) is applied to each datum
+        // exactly once, in order — the list function of a closure that remembers its calls depends on it
+        let id = match op {
+            Op::Map => Some(crate::worlds::CALL_MAP),
+            Op::Filter(_) => Some(crate::worlds::CALL_FILTER),
+            Op::Scan(_) => Some(crate::worlds::CALL_SCAN),
+            _ => None,
+        };
+        if let Some(id) = id {
+            let calls: Vec<i64> = ex.trace.iter().filter_map(|e| if let Ev::Call(i, x) = e { (*i == id).then_some(*x) } else { None }).collect();
+            if calls != sent {
+                let at = ex.trace.iter().rposition(|e| matches!(e, Ev::Call(..))).unwrap_or(0);
+                return Some(viol(spec, "closure-not-applied-exactly-once-per-datum", at, format!("upstream sent {:?}, the operator's closure was applied to {:?}", sent, calls)));
+            }
+        }
     }
     found
 }
